@@ -183,6 +183,8 @@ def run_streams(ctx, spec):
                 failures.append(f)
     if ndis:
         C.log("%d disagreements between model and implementation" % ndis)
+    if "static" in spec:
+        failures += spec["static"](ctx)
     # property oracle on the implementation
     ofail = spec["oracle"](ctx, cases, impl, model)
     nof = 0
@@ -1580,4 +1582,251 @@ PROPS["C16"] = {
     "rule": "live histories of 2-7 segments (key events over 4 formats incl. NONE and explicit IVs, byte ranges none/explicit/implicit, media sequences up to 2^64-21): EVERY window [k,m) is rendered the way a server would (media sequence + k, keys in effect and the first byte range restated) - this covers append (m grows), slide (k grows) and every chain of both; generated playlists cut at EVERY line boundary; master playlists and media texts cut right after EXT-X-STREAM-INF; non-trivial = accepted window or cut",
     "explanation": "theorems: append_stable (segments of an accepted history are a prefix of those of any accepted extension without a new MEDIA-SEQUENCE), built_prefix, built_functional, cut_inside_item_rejected, trailing_error_item_rejected, built_shift / built_drop / built_prev_irrelevant / slide_stable (dropping k segments and raising the media sequence by k leaves numbers, URIs, ranges, keys, IVs of the rest unchanged); oracle: per history, the identity (number, URI, resolved range, key set with effective IVs) of each segment must be the same in every window that contains it; per cut, rejected or prefix",
     "assumptions": ["an appended or cut-away EXT-X-MEDIA-SEQUENCE line legitimately renumbers (the last one wins): excluded as in the theorem's hypothesis", "EXT-X-MAP is attached to the next segment only (library design) and is not part of the slide oracle"],
+}
+
+
+# ------------------------------------------------------------------------------------------
+# C05
+
+TYPE_OPS = ["ByteRange", "Channels", "ClosedCaptions", "Codecs", "DecryptionKey", "EncryptionMethod", "Float", "UFloat", "HdcpLevel",
+            "InStreamId", "InitializationVector", "KeyFormat", "KeyFormatVersions", "MediaType", "PlaylistType", "ProtocolVersion",
+            "Resolution", "StreamData", "Value"]
+TAG_OPS = ["ExtXVersion", "ExtInf", "ExtXByteRange", "ExtXKey", "ExtXMap", "ExtXProgramDateTime", "ExtXDateRange", "ExtXMedia",
+           "ExtXSessionData", "ExtXSessionKey", "ExtXStart", "VariantStream"]
+TYPE_SEEDS = {
+    "ByteRange": ["10@5", "10", "0@0"], "Channels": ["6", "16/JOC"], "ClosedCaptions": ["NONE", '"cc1"'], "Codecs": ["avc1.4d401e,mp4a.40.2"],
+    "DecryptionKey": ['METHOD=AES-128,URI="k",IV=0x000102030405060708090a0b0c0d0e0f,KEYFORMAT="identity",KEYFORMATVERSIONS="1/2/5"'],
+    "EncryptionMethod": ["AES-128", "SAMPLE-AES"], "Float": ["1.5", "-0.25", "1e3"], "UFloat": ["29.97", "0"], "HdcpLevel": ["TYPE-0", "NONE"],
+    "InStreamId": ["CC1", "SERVICE63"], "InitializationVector": ["0x000102030405060708090a0b0c0d0e0f"], "KeyFormat": ['"identity"', '"x"'],
+    "KeyFormatVersions": ['"1/2/5"', '"1"'], "MediaType": ["AUDIO", "CLOSED-CAPTIONS"], "PlaylistType": ["#EXT-X-PLAYLIST-TYPE:VOD"],
+    "ProtocolVersion": ["7", " 3 "], "Resolution": ["1920x1080"], "StreamData": ['BANDWIDTH=1,AVERAGE-BANDWIDTH=2,CODECS="a,b",RESOLUTION=1x2,HDCP-LEVEL=NONE,VIDEO="v"'],
+    "Value": ['"s"', "0xAB", "1.5"],
+}
+TAG_SEEDS = {
+    "ExtXVersion": ["#EXT-X-VERSION:3"], "ExtInf": ["#EXTINF:9.009,title", "#EXTINF:10,"], "ExtXByteRange": ["#EXT-X-BYTERANGE:10@5"],
+    "ExtXKey": ['#EXT-X-KEY:METHOD=AES-128,URI="k",IV=0x000102030405060708090a0b0c0d0e0f', "#EXT-X-KEY:METHOD=NONE"],
+    "ExtXMap": ['#EXT-X-MAP:URI="init.mp4",BYTERANGE="10@5"'], "ExtXProgramDateTime": ["#EXT-X-PROGRAM-DATE-TIME:2010-02-19T14:54:23.031+08:00"],
+    "ExtXDateRange": ['#EXT-X-DATERANGE:ID="a",CLASS="c",START-DATE="2010",END-DATE="2011",DURATION=60.1,PLANNED-DURATION=59.9,SCTE35-CMD=0xFC,X-A="s",X-B=0xAB,X-C=1.5',
+                      '#EXT-X-DATERANGE:ID="a",CLASS="c",END-ON-NEXT=YES'],
+    "ExtXMedia": ['#EXT-X-MEDIA:TYPE=AUDIO,URI="u",GROUP-ID="g",LANGUAGE="en",ASSOC-LANGUAGE="de",NAME="n",DEFAULT=YES,AUTOSELECT=YES,CHARACTERISTICS="c",CHANNELS="6"',
+                  '#EXT-X-MEDIA:TYPE=CLOSED-CAPTIONS,GROUP-ID="g",NAME="n",INSTREAM-ID="SERVICE12"'],
+    "ExtXSessionData": ['#EXT-X-SESSION-DATA:DATA-ID="d",VALUE="v",LANGUAGE="en"'], "ExtXSessionKey": ['#EXT-X-SESSION-KEY:METHOD=AES-128,URI="k"'],
+    "ExtXStart": ["#EXT-X-START:TIME-OFFSET=-1.5,PRECISE=YES"],
+    "VariantStream": ['#EXT-X-STREAM-INF:BANDWIDTH=1,FRAME-RATE=29.97,AUDIO="a",SUBTITLES="s",CLOSED-CAPTIONS=NONE,CODECS="x,y",RESOLUTION=1x2\nuri', '#EXT-X-I-FRAME-STREAM-INF:BANDWIDTH=1,URI="u"'],
+}
+DEFECT_WITNESSES = [
+    ("tag:ExtXMap", '#EXT-X-MAP:URI="'), ("tag:ExtInf", "#EXTINF:-1,"), ("tag:ExtInf", "#EXTINF:nan,"), ("tag:ExtInf", "#EXTINF:1e400,"),
+    ("tag:ExtXDateRange", '#EXT-X-DATERANGE:ID="a",DURATION=-1'), ("tag:ExtXDateRange", '#EXT-X-DATERANGE:ID="a",PLANNED-DURATION=-1'),
+    ("type:ByteRange", "18446744073709551615@1"), ("tag:ExtXByteRange", "#EXT-X-BYTERANGE:18446744073709551615@1"),
+    ("media", "#EXTM3U\n#EXT-X-TARGETDURATION:10\n#EXT-X-MEDIA-SEQUENCE:18446744073709551615\n#EXTINF:1,\na\n#EXTINF:1,\nb\n"),
+    ("unquote", '"'), ("attrs", '="'), ("attrs", "é="), ("attrs", "=,"), ("attrs", "a"),
+]
+
+
+def c05_build(ctx):
+    rng = ctx.rng
+    cases = []
+    for op, p in DEFECT_WITNESSES:
+        cases.append(mk(op, p, group="witnesses"))
+    cases.append(mk("media_builder", "#EXTM3U\n#EXT-X-TARGETDURATION:18446744073709551615\n#EXTINF:1,\na\n", "1000000000", group="witnesses"))
+    cases += corpus_requests()
+    seeds_media = [G.gen_media(rng, features=ctx.features)[0] for _ in range(ctx.n(150, 600))] + [t for t in corpus_texts() if "#EXTINF" in t]
+    seeds_master = [G.gen_master(rng, features=ctx.features)[0] for _ in range(ctx.n(150, 600))] + [t for t in corpus_texts() if "#EXT-X-STREAM-INF" in t]
+    nm = ctx.n(7000, 140000)
+    for i in range(nm):
+        t = G.mutate(rng, rng.choice(seeds_media))
+        if rng.random() < 0.3:
+            t = G.mutate(rng, t)
+        op = rng.choice(["rt_media", "rt_media", "media_fromstr", "media_builder", "master"])
+        args = [rng.choice(["-", "0", "1000000000", "18446744073709551615999999999"])] if op == "media_builder" else []
+        cases.append(mk(op, t, *args, group="mutant:media"))
+    for i in range(ctx.n(4000, 80000)):
+        t = G.mutate(rng, rng.choice(seeds_master))
+        if rng.random() < 0.3:
+            t = G.mutate(rng, t)
+        cases.append(mk(rng.choice(["rt_master", "rt_master", "media"]), t, group="mutant:master"))
+    for name in TAG_OPS:
+        for _ in range(ctx.n(350, 7000)):
+            t = rng.choice(TAG_SEEDS[name])
+            if rng.random() < 0.9:
+                t = G.mutate(rng, t)
+            cases.append(mk("tag:" + name, t, group="mutant:tag"))
+    for name in TYPE_OPS:
+        for _ in range(ctx.n(200, 4000)):
+            t = rng.choice(TYPE_SEEDS[name])
+            if rng.random() < 0.9:
+                t = G.mutate(rng, t)
+            cases.append(mk("type:" + name, t, group="mutant:type"))
+    allops = ["media", "master", "rt_media", "rt_master", "lines", "attrs", "unquote"] + ["tag:" + t for t in TAG_OPS] + ["type:" + t for t in TYPE_OPS]
+    for _ in range(ctx.n(5000, 100000)):
+        cases.append(mk(rng.choice(allops), ("#EXTM3U\n" if rng.random() < 0.5 else "") + G.random_text(rng), group="random-text"))
+    for tok in G.BAD_TOKENS:
+        for name in TYPE_OPS:
+            cases.append(mk("type:" + name, tok, group="bad-token"))
+    return cases
+
+
+def timing_inputs(n, kind):
+    if kind == "bounded-keys":
+        body = "".join('#EXT-X-KEY:METHOD=AES-128,URI="k%d",KEYFORMAT="f%d"\n#EXTINF:9.009,\nseg%d.ts\n' % (i, i % 4, i) for i in range(n))
+    elif kind == "unbounded-keys":
+        body = "".join('#EXT-X-KEY:METHOD=AES-128,URI="k%d",KEYFORMAT="f%d"\n#EXTINF:9.009,\nseg%d.ts\n' % (i, i, i) for i in range(n))
+    elif kind == "long-attribute-list":
+        body = '#EXT-X-DATERANGE:ID="a",' + ",".join('X-A%d="v,%d"' % (i, i) for i in range(n * 4)) + "\n#EXTINF:1,\ns.ts\n"
+    else:
+        body = "#EXTINF:1," + '"' * (n * 20) + "\ns.ts\n" + "# " + "=," * (n * 10) + "\n"
+    return "#EXTM3U\n#EXT-X-TARGETDURATION:10\n" + body
+
+
+def c05_timing(ctx):
+    """supporting evidence (not a theorem): growth of the running time of the real parser+writer"""
+    out = {}
+    viol = []
+    base = 250 if ctx.quick else 500
+    for kind, limit in (("bounded-keys", 10.0), ("unbounded-keys", 40.0), ("long-attribute-list", 10.0), ("quotes-and-separators", 10.0)):
+        ts = []
+        for n in (base, base * 2, base * 4):
+            text = timing_inputs(n, kind)
+            best = None
+            for _ in range(3):
+                o = C.run_many(C.IMPL, [C.req("time", text, "rt_media")], 1)[0]
+                us = int(o.split(" ")[1]) if o.startswith("ok ") else None
+                if us is not None:
+                    best = us if best is None else min(best, us)
+            ts.append((n, len(text), best))
+        out[kind] = [{"n": n, "bytes": b, "microseconds": t} for n, b, t in ts]
+        t1, t4 = ts[0][2], ts[2][2]
+        if t1 and t4 and t1 > 2000:
+            ratio = t4 / t1
+            out[kind].append({"ratio_4x": round(ratio, 2), "limit": limit})
+            if ratio > limit:
+                viol.append("%s: 4x input takes %.1fx the time (limit %.0f)" % (kind, ratio, limit))
+        if t4 and t4 > 20_000_000:
+            viol.append("%s: %d bytes took %.1f s" % (kind, ts[2][1], t4 / 1e6))
+    return out, viol
+
+
+def c05_oracle(ctx, cases, impl, model):
+    fails = []
+    seen = set()
+    for c, a in zip(cases, impl):
+        st = a.split(" ", 1)[0]
+        if st in ("panic", "abort", "timeout") or " R:panic" in a or " F:panic" in a:
+            k = (c.op, st)
+            if k in seen and len(fails) > 20:
+                continue
+            seen.add(k)
+            fails.append(dict(describe(c.line, a), what="%s on %s" % ("unwound (panic)" if "panic" in a else st, c.op), law="no-panic"))
+    timing, viol = c05_timing(ctx)
+    ctx.timing = timing
+    for v in viol:
+        fails.append({"what": "running time: " + v, "law": "prompt", "request_line": C.req("time", "see evidence/C05.json coverage.timing", "rt_media")})
+    return fails
+
+
+def c05_canon(raw, keys):
+    st = raw.split(" ", 1)[0]
+    return "panic" if (st in ("panic", "abort", "timeout") or " R:panic" in raw or " F:panic" in raw) else "returns"
+
+
+PROPS["C05"] = {
+    "build": c05_build, "gate": {"status"}, "canon": c05_canon, "oracle": c05_oracle,
+    "nontrivial": lambda c, a: True,
+    "rule": "malformed stream: mutants of generated and fixture playlists (token replaced by a boundary value such as -1, 2^64-1, 2^64, nan, inf, 1e400, empty, lone quote, 300-digit numbers; truncation at every kind of position; duplicated / swapped lines; multi-byte characters spliced next to = , \" @ x / :), mutants of one or two valid texts per tag and per attribute type, random texts over a tag-biased alphabet, every boundary token on every attribute type; through every text-accepting entry point (TryFrom, FromStr, builder.parse with allowances, every public tag and type parser) and, for accepted values, to_string() and the re-parse; distinct cases all count (each decides panic-or-not)",
+    "explanation": "theorems: parseMedia_never_panics (every builder configuration, every string), parseMaster_never_panics, types_never_panic, tags_never_panic, show_never_panics (to_string of ANY media playlist value), items_np, buildLoop_np / build_np, items_byteRange (classifier output fits 64 bits, so ByteRange::set_start cannot fire); termination: all model functions pass Lean's termination checker; the compared observable is only 'unwound or returned'; running time is measured on the real library at 1x/2x/4x sizes (supporting evidence, coverage.timing)",
+    "extra_coverage": lambda ctx: {"timing": getattr(ctx, "timing", {})},
+    "assumptions": ["panic sites of the Rust code are those modelled (slice in unquote, Duration::from_secs_f64, usize/Duration arithmetic, StableVec::insert, KeyFormatVersions::push, ByteRange::set_start, unreachable! in the writer); the harness is built with overflow checks and debug assertions so that arithmetic overflow is observable", "time bounds are measured, not proved"],
+}
+
+
+# ------------------------------------------------------------------------------------------
+# C11
+
+def c11_texts(ctx):
+    rng = ctx.rng
+    texts = []
+    H = "#EXTM3U\n#EXT-X-TARGETDURATION:10\n"
+    fmts = ["f%d" % i for i in range(8)] + ["identity", "com.apple.streamingkeydelivery", "com.microsoft.playready"]
+    for _ in range(ctx.n(150, 1500)):
+        n = rng.randint(2, 6)
+        ks = rng.sample(fmts, n)
+        body = ""
+        for j in range(rng.randint(1, 3)):
+            rng.shuffle(ks)
+            body += "".join('#EXT-X-KEY:METHOD=AES-128,URI="%s",KEYFORMAT="%s"\n' % (rng.choice("abc"), f) for f in ks[:rng.randint(1, n)])
+            if rng.random() < 0.3:
+                body += '#EXT-X-MAP:URI="m%d"\n' % j
+            body += "#EXTINF:1,\ns%d\n" % j
+        texts.append(("rt_media", H + body))
+    for _ in range(ctx.n(150, 1500)):
+        texts.append(("rt_media", G.gen_media(rng, key_weight=0.7, features=ctx.features)[0]))
+    for _ in range(ctx.n(100, 1000)):
+        texts.append(("rt_master", G.gen_master(rng, features=ctx.features)[0]))
+    for t in corpus_texts():
+        texts.append(("rt_media" if "#EXTINF" in t or "TARGETDURATION" in t else "rt_master", t))
+    return texts
+
+
+def c11_build(ctx):
+    cases = []
+    k = ctx.n(5, 50)
+    for i, (op, t) in enumerate(c11_texts(ctx)):
+        for r in range(k):
+            cases.append(mk(op, t, group="repeat-in-process", meta={"id": i}))
+        cases.append(mk("par", t, op, group="threads", meta={"id": i}))
+    return cases
+
+
+def c11_static(ctx):
+    from . import translate as T
+    try:
+        sites = T.hash_iteration_sites()
+    except T.TranslateError as e:
+        sites = ["translator: %s" % e]
+    return [{"kind": "corr", "broken": "static tie of C11: a hash collection's iteration order can reach an output", "detail": sites,
+             "what": "hash-order dependence introduced: %s" % "; ".join(sites[:3])}] if sites else []
+
+
+def c11_oracle(ctx, cases, impl, model):
+    fails = []
+    by_id = {}
+    for c, a in zip(cases, impl):
+        if a.startswith("nondeterministic"):
+            fails.append(dict(describe(c.line, a), what="the same text parsed on two threads gives different results", law="threads")); continue
+        by_id.setdefault(c.meta["id"], []).append((c, a))
+    for i, items in by_id.items():
+        outs = {a for _, a in items}
+        if len(outs) > 1:
+            c, a = items[0]
+            other = next(x for x in outs if x != a)
+            fails.append(dict(describe(c.line, a), what="parsing the same text %d times in one process gives %d different results" % (len(items), len(outs)), law="repeat", other=other[:2000]))
+    # fresh processes (fresh hash seeds)
+    m = ctx.n(4, 64)
+    distinct = []
+    seen = set()
+    for c in cases:
+        if c.group == "repeat-in-process" and c.meta["id"] not in seen:
+            seen.add(c.meta["id"]); distinct.append(c)
+    lines = [c.line for c in distinct]
+    ref = None
+    for p in range(m):
+        out = C.run_many(C.IMPL, lines, 1)
+        if ref is None:
+            ref = out
+            continue
+        for c, x, y in zip(distinct, ref, out):
+            if x != y:
+                fails.append(dict(describe(c.line, x), what="parsing the same text in two processes gives different results", law="processes", other=y[:2000]))
+                break
+    ctx.features["fresh_processes"] = m
+    ctx.features["distinct_texts"] = len(lines)
+    return fails
+
+
+PROPS["C11"] = {
+    "build": c11_build, "gate": {"status", "obs", "T", "V", "D", "A", "R", "F"}, "oracle": c11_oracle, "static": c11_static,
+    "nontrivial": lambda c, a: a.startswith("ok") and c.group == "threads",
+    "rule": "texts with 2-6 simultaneously active key formats declared in shuffled orders (plus maps), generated media/master playlists with a high key rate, repository fixtures; each text is parsed and re-serialised k times in one process (quick 5, thorough 50), on 4 extra threads (`par`), and in m fresh processes (quick 4, thorough 64; fresh hash seeds); all responses (value, text, version, keys(), round trip) must be byte-identical and equal to the model's single answer; non-trivial = distinct accepted texts",
+    "explanation": "theorems: listing_canonical (the key listing is determined by the RFC-level key state), insert_comm, same_state_same_listing, segment_keys_sorted (every accepted text), parse_is_a_function; static tie: a scan of media_playlist.rs / master_playlist.rs / media_segment.rs / line.rs flags any HashSet/HashMap whose iteration can reach an output (membership-only use is allowed); the runtime part of the property (threads, processes, hash seeds) cannot be exhibited by a model and is executed",
+    "assumptions": ["thread scheduling and process hash seeds are sampled, not enumerated (partial by nature)"],
 }
